@@ -4,7 +4,7 @@ Every implementation is interpreted from source on representative grids into an 
 from . import dag, ir, opsdom, symdom
 from .conc import Arr
 from .dag import Lin
-from .interp import Cell, Interp, Obj
+from .interp import Cell, Interp, Obj, Undef
 from .symdom import SArr
 
 _prog = None
@@ -151,4 +151,30 @@ def make_gmgpolar(S, levels, threads=2):
                  ("boundary_conditions_", opsdom.AbstractInput("boundary")), ("exact_solution_", opsdom.AbstractInput("exact")),
                  ("domain_geometry_", S.geom), ("density_profile_coefficients_", S.coef)):
         gm.f[k] = Cell(v, k)
+    default_other_members(S.dom, gm, "GMGPolar")
     return gm
+
+
+def default_other_members(dom, obj, cls):
+    """members of cls that a hand-built abstract object does not name get what a default-constructed member holds where the
+    domain knows the type (empty vectors, zero-length arrays, literal in-class initialisers), otherwise stay unassigned: a
+    member added to the class later does not break the analysis unless the analysed code really depends on it"""
+    c = dom.prog.classes.get(cls) or {}
+    for fd in c.get("fields", []):
+        if fd["name"] in obj.f:
+            continue
+        try:
+            v = dom.field_default(fd["t"], fd["name"])
+        except Exception:
+            v = Undef(fd["name"])
+        init = fd.get("init")
+        while init is not None and init.get("k") in ("Paren", "Cast", "ImplicitCast", "Expr") and init.get("e") is not None:
+            init = init["e"]
+        if init is not None and init.get("k") in ("Int", "Bool") and "v" in init:
+            v = bool(init["v"]) if init["k"] == "Bool" else int(init["v"])
+        if isinstance(v, Undef) and (fd["t"].startswith("Vector<") or fd["t"].startswith("std::vector<")):
+            try:
+                v = dom.new_object(fd["t"].replace("const ", "").strip(), None, None)
+            except Exception:
+                pass
+        obj.f[fd["name"]] = Cell(v, fd["name"])
